@@ -1,4 +1,5 @@
 import Bcder.Props.C09
+import Bcder.Props.C11c
 #print axioms Bcder.Props.C09.tag_takeFromIf0
 #print axioms Bcder.Props.C09.pnvE_eq
 #print axioms Bcder.Props.C09.absent_untouched_if
@@ -11,3 +12,6 @@ import Bcder.Props.C09
 #print axioms Bcder.Props.C09.primitive_on_constructed
 #print axioms Bcder.Props.C09.constructed_on_primitive
 #print axioms Bcder.Props.C02.pnv_eq
+#print axioms Bcder.Props.C11c.framable_pnv
+#print axioms Bcder.Props.C11c.absent_untouched_framed
+#print axioms Bcder.Props.C11c.absent_untouched_if_framed
